@@ -786,12 +786,14 @@ def elem_of_ptr(ct):
     return None
 
 
-def mem_harness(c, t, ect, n_expr, ptr_index, extra_args, aligned=False):
+def mem_harness(c, t, ect, n_expr, ptr_index, extra_args, aligned=False, api_aligned=None):
     """harness lines: cnt = min(n, W); buf = malloc(cnt * sizeof T) filled from a nondet array.
     Aligned forms: p is aligned to the vector size, so the naturally aligned vector-sized block containing the
     addressed elements lies in the same page and reading it can neither fault nor be observed; the object is that
     whole block (W elements) and the contract still forbids WRITING anything but the addressed elements."""
     W = t.W
+    if api_aligned is None:
+        api_aligned = aligned
     pre = ['%s init[%d];' % (ect, W),
            'uint32_t n_in = %s;' % n_expr,
            'uint32_t cnt = n_in < %du ? n_in : %du;' % (W, W),
@@ -799,7 +801,16 @@ def mem_harness(c, t, ect, n_expr, ptr_index, extra_args, aligned=False):
            '%s* buf = malloc((size_t)objn * sizeof(%s));' % (ect, ect),
            '__CPROVER_assume(buf != 0);',
            'for (int i = 0; i < %d; i++) if ((uint32_t)i < objn) buf[i] = init[i];' % W]
+    pre += mem_misalign(ect, api_aligned)
     return pre
+
+
+def mem_misalign(ect, api_aligned):
+    """the unaligned forms must work at every element-aligned address: the object's base address is misaligned by an
+    arbitrary multiple of the element size (ghost avm_mem_mod, read by the models of alignment-requiring instructions)"""
+    if api_aligned:
+        return ['size_t mis_in = 0;', 'avm_mem_obj = buf;', 'avm_mem_mod = 0;']
+    return ['size_t mis_in = (size_t)(nondet_u8() %% 64) / sizeof(%s) * sizeof(%s);' % (ect, ect), 'avm_mem_obj = buf;', 'avm_mem_mod = mis_in;']
 
 
 def bits_of(ect, e):
@@ -837,7 +848,7 @@ def f_memory(c):
         ens = [('%s lane %d' % (name, i), '%s == ((%du < %s) ? %s : 0)' % (t.lane(RV, i), i, cnt, bits_of(ect, '%s[%d]' % (p, i)))) for i in range(t.W)]
         k = Contract('mem_' + name + ('_n' if len(P) == 2 else '_N'), ['C08', 'C09'], ensures=ens, assigns=[], cxx=cxx)
         k.harness = {'pre': mem_harness(c, t, ect, n_expr, 0, [], aligned=name.startswith('aligned')), 'args': args}
-        k.harness_C08 = {'pre': mem_harness(c, t, ect, n_expr, 0, [], aligned=True), 'args': args}
+        k.harness_C08 = {'pre': mem_harness(c, t, ect, n_expr, 0, [], aligned=True, api_aligned=name.startswith('aligned')), 'args': args}
         k.mem = {'kind': 'load', 'elem': ect, 'W': t.W, 'aligned': name.startswith('aligned'), 'nparam': len(P) == 2}
         return k
     # ---------------- store / aligned_store
@@ -866,7 +877,7 @@ def f_memory(c):
         k = Contract('mem_' + name + ('_n' if len(P) == 3 else '_N'), ['C08', 'C09'], ensures=ens,
                      assigns=['__CPROVER_object_upto(%s, %s * sizeof(%s))' % (p, cnt_noternary, ect)], cxx=cxx)
         k.harness = {'pre': mem_harness(c, t, ect, n_expr, 0, [], aligned=name.startswith('aligned')) + ['%s a1;' % t.ct], 'args': args}
-        k.harness_C08 = {'pre': mem_harness(c, t, ect, n_expr, 0, [], aligned=True) + ['%s a1;' % t.ct], 'args': args}
+        k.harness_C08 = {'pre': mem_harness(c, t, ect, n_expr, 0, [], aligned=True, api_aligned=name.startswith('aligned')) + ['%s a1;' % t.ct], 'args': args}
         k.mem = {'kind': 'store', 'elem': ect, 'W': t.W, 'aligned': name.startswith('aligned'), 'nparam': len(P) == 3}
         return k
     # ---------------- to_array / array constructor / extract / insert (values only: C08)
@@ -939,7 +950,7 @@ def f_gather_scatter(c):
            '__CPROVER_assume(len_in <= %d);' % L, 'avm_len = len_in;',
            '%s* buf = malloc(len_in * sizeof(%s));' % (ect, ect), '__CPROVER_assume(buf != 0);',
            'for (int i = 0; i < %d; i++) if ((size_t)i < len_in) buf[i] = init[i];' % L,
-           'uint32_t n_in = %s;' % n_expr]
+           'uint32_t n_in = %s;' % n_expr] + mem_misalign(ect, False)
     if c.name == 'gather':
         ens = [('gather lane %d' % i, '%s == (%s ? %s : 0)' % (t.lane(RV, i), act(i), bits_of(ect, '%s[%s]' % (p, sidx(i))))) for i in range(W)]
         k = Contract('mem_gather' + ('_n' if len(P) == 3 else '_N'), ['C08', 'C09'], requires=req, ensures=ens, assigns=[], cxx=None)
@@ -1238,6 +1249,15 @@ def f_denominator(c):
             return None
         t, el, vec = di
         pct = c.P[0]['ctype']
+        if pct == t.ct and t.W > 1 and t.bits == 64:
+            # 64-bit lanes: the magic numbers come from the scalar 128-by-64-bit divide (divq / __uint128_t), one lane at a
+            # time.  "Constructing ... never traps": every safety obligation of the constructor (divq: high half below the
+            # divisor, shift amounts, ...) for ALL non-zero divisor lanes, with the divide instruction uninterpreted
+            req = ['%s != 0' % t.lane(c.a(0), i) for i in range(t.W)]
+            ens = [('value() reports the divisor, lane %d' % i, '%s == %s' % (t.lane('(%s).d' % RV, i), t.lane(c.a(0), i))) for i in range(t.W)]
+            k = Contract('denom_ctor_simd', ['C15'], requires=req, ensures=ens, cxx='%s({0})' % ('avel::Denominator<%s>' % t.cxx()), flags=['div'])
+            k.defines = ['AVM_DIV_UF']
+            return k
         if pct == t.ct and t.W > 1:
             # SIMD constructors run vector division loops on a symbolic divisor (beyond the solvers); they are executed
             # -- with every safety check on -- inside each div / operator obligation, which builds its denominator with them
